@@ -306,7 +306,8 @@ theorem longestRuns_table_M128_partial :
     lrDPCounts 8 1 4 = lrExactCounts 8 1 4 ∧ lrDPCounts 10 2 6 = lrExactCounts 10 2 6 :=
   ⟨lr_table_M128, lrDP_eq_exact_8, lrDP_eq_exact_10⟩
 
-/-- the recurrence counts what it should, for every M (not proved; used by the two ☆ table facts). -/
+/-- the recurrence counts what it should, for every M (stated here; PROVED in Props/C12More.lean:
+`C12More.longestRuns_recurrence_correct`, which also makes the two table facts unconditional). -/
 def longestRuns_recurrence_correct : Prop :=
   ∀ M vl vu, vl < vu → lrDPCounts M vl vu = lrExactCounts M vl vu
 
@@ -371,7 +372,7 @@ theorem serial_first_difference_nonneg (bits n : Nat) (mm : Option Nat) (o : Ser
     (h : serial bits n mm = .ok o) (j a b : Nat) (ha : o.sq[j]? = some a) (hb : o.sq[j + 1]? = some b) :
     psiNum n (j + 1) a ≤ psiNum n (j + 2) b := serial_dpsi_nonneg bits n mm o h j a b ha hb
 
-/-- ☆ not proved: ∇²ψ²_m ≥ 0 (held exactly for all (string, m) with n ≤ 14 in the exhaustive runs).
+/-- ∇²ψ²_m ≥ 0 (stated here; PROVED in Props/C12More.lean: `C12More.serial_second_difference_nonneg`).
 The repaired code clamps at 0 (D11), as it does for the ApEn χ² (D10), so the p-values are in
 [0, 1] also without this fact. -/
 def serial_second_difference_nonneg : Prop :=
